@@ -318,6 +318,8 @@ func (g *gen) call(flavor string, maxLeaves int) Event {
 		f = g.pick([]string{"sat", "sat", "sat", "invalid", "lists", "extract", "extract"})
 	}
 	switch f {
+	case "large":
+		return g.largeCall()
 	case "session":
 		panic("session flavour is driven by sessionEvents")
 	case "case":
@@ -449,6 +451,91 @@ func (g *gen) spellCall(pool []string) Event {
 	}
 	a := []string{s}
 	return eventOf(obsSatisfies(o, a), o, a)
+}
+
+// ------------------------------------------------------------------ large inputs
+//
+// Inputs beyond the exhaustively explored sizes: long AND / OR chains, deep and redundant nesting, wide
+// ORs of ANDs, left-nested groups, many distinct terms per AND group, long allowed lists with repeats
+// and re-spellings, long LicenseRef names, long blank runs.  (The number of OR groups that are ANDed
+// together stays small: their product is the known exponential expansion, finding D8.)
+
+func (g *gen) chain(op string, n int, pool []string) string {
+	parts := make([]string, n)
+	for i := range parts {
+		parts[i] = g.term(pool, true)
+	}
+	return strings.Join(parts, " "+op+" ")
+}
+
+func (g *gen) largeExpr(pool []string) string {
+	n := 7 + g.rng.Intn(30)
+	switch g.rng.Intn(9) {
+	case 0:
+		return g.chain("AND", n, pool)
+	case 1:
+		return g.chain("OR", n, pool)
+	case 2: // OR of AND groups of growing width
+		var gs []string
+		for i := 0; i < 3+g.rng.Intn(6); i++ {
+			gs = append(gs, "("+g.chain("AND", 2+g.rng.Intn(9), pool)+")")
+		}
+		return strings.Join(gs, " OR ")
+	case 3: // deep redundant nesting around a small expression
+		d := 4 + g.rng.Intn(12)
+		return strings.Repeat("(", d) + g.chain(g.pick([]string{"AND", "OR"}), 2+g.rng.Intn(3), pool) + strings.Repeat(")", d)
+	case 4: // left-nested chain with explicit parentheses
+		e := g.term(pool, true)
+		for i := 0; i < 6+g.rng.Intn(10); i++ {
+			e = "(" + e + " " + g.pick([]string{"AND", "AND", "OR"}) + " " + g.term(pool, true) + ")"
+		}
+		return e
+	case 5: // right-nested alternating nest
+		e := g.term(pool, true)
+		for i := 0; i < 6+g.rng.Intn(10); i++ {
+			op := "AND"
+			if i%2 == 1 {
+				op = "OR"
+			}
+			e = g.term(pool, true) + " " + op + " (" + e + ")"
+		}
+		return e
+	case 6: // a few OR groups ANDed with a long AND tail
+		var gs []string
+		for i := 0; i < 2+g.rng.Intn(3); i++ {
+			gs = append(gs, "("+g.chain("OR", 2+g.rng.Intn(3), pool)+")")
+		}
+		return strings.Join(gs, " AND ") + " AND " + g.chain("AND", 5+g.rng.Intn(10), pool)
+	case 7: // long names and blank runs
+		name := strings.Repeat(g.pick([]string{"a", "Ab", "x-1.", "Z9"}), 20+g.rng.Intn(40))
+		return "LicenseRef-" + name + strings.Repeat(" ", 1+g.rng.Intn(60)) + g.pick([]string{"AND", "OR"}) + strings.Repeat(" ", 1+g.rng.Intn(60)) +
+			"DocumentRef-" + name + ":LicenseRef-" + name + " OR " + g.chain("AND", 3, pool)
+	}
+	return g.expr(n, pool, true) // a random tree with many leaves
+}
+
+func (g *gen) largeCall() Event {
+	pool := g.relatedPool()
+	e := g.largeExpr(pool)
+	switch g.rng.Intn(10) {
+	case 0:
+		e = g.mutate(e)
+	case 1:
+		return eventOf(obsExtract(e), e, nil)
+	case 2:
+		l := []string{e, g.largeExpr(pool), g.mutate(g.largeExpr(pool)), e}
+		return eventOf(obsValidate(l), "", l)
+	}
+	if g.rng.Intn(3) == 0 {
+		return eventOf(obsExtract(e), e, nil)
+	}
+	// long allowed list: many entries, repeats, re-spellings; the wanted terms anywhere in it
+	a := g.allowedList(pool, 6+g.rng.Intn(20))
+	for i := 0; i < len(a)/3; i++ {
+		a = append(a, a[g.rng.Intn(len(a))])
+	}
+	g.rng.Shuffle(len(a), func(i, j int) { a[i], a[j] = a[j], a[i] })
+	return eventOf(obsSatisfies(e, a), e, a)
 }
 
 // ------------------------------------------------------------------ sessions
